@@ -1047,7 +1047,7 @@ def run(ctx):
     # ---------------- 1+2. model checking and spec -> code
     toy1 = ["p43", "p83", "p103"]
     sfx = "_q" if q else "_t"
-    names = ["sec_%s%s" % (c, sfx) for c in toy1] + ["sec_p283c" + sfx, "sec_p283u" + sfx]
+    names = ["sec_%s%s" % (c, sfx) for c in toy1] + ["sec_p283c" + sfx, "sec_p283u" + sfx] + ([] if q else ["sec_p283c_q"])
     names += ["der_grid" + sfx, "der_sig" + sfx, "der_short", "sec256" + sfx, "wif", "dersig"]
     names += ["toykey_%s" % c for c in toy1 + ["p283"]]
     jobs = [{"cfg": "MC_KeyEnc_" + nm} for nm in names] + [{"cfg": "MC_KeyEnc_secmut", "expect_ok": False, "count": False}]
